@@ -22,8 +22,8 @@ PROPERTIES = {
         assumptions=[CONC, 'tokio broadcast: send appends, a receiver created under the lock sees exactly the later events'],
     ),
     'C05': dict(
-        units=['active_peers', 'kani_tiebreak', 'enum_cm'],
-        canaries=['active_peers'],
+        units=['active_peers', 'kani_tiebreak', 'enum_cm', 'tls_config'],
+        canaries=['active_peers', 'tls_config'],
         counterexample=cex.cex_c05,
         extra=[validate.history_c04],
         scope='the tie-break keeps the connection dialed by the greater PeerId: proved for the real function over all 2^512 id pairs '
@@ -128,15 +128,15 @@ PROPERTIES = {
         assumptions=['Instant + Duration does not overflow; fewer than 2^64 consecutive failures'],
     ),
     'C03': dict(
-        units=['active_peers', 'crypto', 'wire', 'enum_glue'],
-        canaries=['dialing', 'streams', 'crypto'],
+        units=['active_peers', 'crypto', 'tls_config', 'wire', 'enum_glue'],
+        canaries=['dialing', 'streams', 'crypto', 'tls_config'],
         extra=[validate.history_c03, validate.cert_corpus],
         counterexample=cex.cex_cert,
         scope='glue only: (a) the pinning verifier accepts a server certificate only if its public key is the expected identity AND the base verifier accepts it, '
               'and proof of key possession (handshake signature) is delegated unchanged to rustls restricted to Ed25519; (b) a dial with an expected identity goes through '
               'connect_with_expected_peer_id(addr, id), one without through connect(addr); (c) a successful result registers the connection in the active-peer set and THEN answers '
               'the caller with exactly the authenticated identity of that connection (ghost notification log with the connected set at that instant); a failure registers nothing and is reported as a failure.',
-        unverified=['rustls actually calls the verifier / the TLS handshake itself; X.509 parsing (peer_id_from_certificate)',
+        unverified=['rustls actually calls the verifier / the TLS handshake itself; the X.509 and pkcs8 parsers behind peer_id_from_certificate',
                     'that the listener never registers a dialer that rejected it (cross-node; only the per-function handshake contract)',
                     'datagram loss during the handshake (quinn)'],
         assumptions=[CONC],
@@ -153,18 +153,20 @@ PROPERTIES = {
         assumptions=[CONC],
     ),
     'C01': dict(
-        units=['crypto', 'wire', 'enum_glue'],
-        canaries=['streams', 'crypto'],
+        units=['crypto', 'tls_config', 'wire', 'enum_glue'],
+        canaries=['streams', 'crypto', 'tls_config'],
         extra=[validate.cert_corpus],
         counterexample=cex.cex_cert,
-        scope='GLUE ONLY (cryptography and X.509 parsing are uninterpreted): the PeerId of a connection is the public key parsed from the FIRST certificate of '
+        scope='GLUE ONLY (cryptography and the X.509 / pkcs8 parsers are uninterpreted): the identity of a certificate is the Ed25519 key decoded from ITS OWN SubjectPublicKeyInfo and every parser failure is an error; '
+              'the server / client TLS configurations handed to quinn install exactly anemo\'s verifiers, the node\'s own certificate and key, TLS 1.3; the node\'s own PeerId is its own public key; '
+              'the PeerId of a connection is the public key parsed from the FIRST certificate of '
               'the chain authenticated in that connection\'s own handshake; every handshake-signature callback delegates unchanged to rustls restricted to Ed25519 '
               '(never accepts unconditionally, never widens the algorithm list); client authentication is offered and mandatory; the pinning verifier requires key == expected identity; '
               'the PeerId a handler sees on a request and a caller sees on a response is connection.peer_id(), attached AFTER decoding, and decoding yields empty extensions, so nothing '
               'carried in the message can supply or influence it; the wire headers carry no identity field.',
         unverified=['rustls, webpki, ring, x509-parser, pkcs8 (the actual cryptography and certificate parsing): uninterpreted predicates',
                     'CertVerifier::verify_client_cert / verify_server_cert (iterator and closure pipelines over &str; self-signed validation through webpki)',
-                    'that config.rs installs these verifiers into the rustls server / client configs (wiring)',
+                    'what rustls / quinn do with the configuration they are handed (the builders are recorders: unit tls_config proves which verifier, certificate, key, versions and server name go in)',
                     'the two statics SUPPORTED_SIG_ALGS / SUPPORTED_ALGORITHMS hold &dyn objects: compared textually with the pinned definition (mismatch = undecided)'],
         assumptions=['rustls reports the peer chain end-entity first and non-empty under mandatory client auth'],
     ),
